@@ -576,6 +576,7 @@ func (c *Ctx) callContract(pi *PkgInfo, fo *types.Func, ct *Contract, recv *Val,
 		}
 		entries := c.evalModEntries(ct.Modifies)
 		c.havocCall(entries)
+		c.autoFrame(entries)
 	}
 	// results
 	n := sig.Results().Len()
